@@ -319,9 +319,81 @@ def run(eng, R):
     tol = [common.call_name(c) for c in ast.walk(we.node) if isinstance(c, ast.Call) and common.call_name(c) in ("allclose", "isclose")]
     R.ob("E10", "write_errors_to_yaml:collapse", not tol, (we.file, we.lineno), "write_errors_to_yaml collapses error vectors with a tolerance (%s): vectors of small, different uncertainties come back as a constant" % tol)
 
+    # ---------------------------------------------------------------- E11: stored flags / numbers are not dropped by a truthiness test
+    R.rule("E11", "a stored value that can be falsy (a flag, a number) is restored whatever its value: readers test such keys for presence (`in`, `is not None`), never for truth", 2)
+    rep_mods = [m for m in p.modules.values() if m.name.startswith("kafe2.fit.representation")]
+    falsy_keys = {}
+    for m in rep_mods:
+        for n in ast.walk(m.tree):
+            if isinstance(n, ast.Assign) and len(n.targets) == 1 and isinstance(n.targets[0], ast.Subscript) and isinstance(n.targets[0].value, ast.Name) and "yaml_doc" in n.targets[0].value.id:
+                k = common.const_str(n.targets[0].slice)
+                if k is None:
+                    continue
+                v = n.value
+                why = None
+                if isinstance(v, ast.Call) and isinstance(v.func, ast.Name) and v.func.id in ("float", "int", "bool"):
+                    why = "%s(...)" % v.func.id
+                elif isinstance(v, ast.Constant) and isinstance(v.value, (bool, int, float)):
+                    why = "constant"
+                elif isinstance(v, ast.Attribute):
+                    for cls in _classes(p):
+                        ini = cls.find_method("__init__")
+                        if ini is None or (cls.find_prop(v.attr) is None):
+                            continue
+                        args = ini.node.args
+                        names = [a.arg for a in args.args]
+                        defs = dict(zip(names[len(names) - len(args.defaults):], args.defaults))
+                        d = defs.get(v.attr)
+                        if isinstance(d, ast.Constant) and isinstance(d.value, (bool, int, float)) and d.value is not None:
+                            why = "%s(%s=%r)" % (cls.name, v.attr, d.value)
+                            break
+                if why:
+                    falsy_keys.setdefault(k, why)
+    for k in ("enabled", "relative", "density"):
+        if k not in falsy_keys:
+            falsy_keys[k] = "flag (by name)"
+    R.info["keys whose stored value can be falsy"] = {k: falsy_keys[k] for k in sorted(falsy_keys)}
+    n_reads = 0
+    for m in rep_mods:
+        for fn in [x for x in ast.walk(m.tree) if isinstance(x, ast.FunctionDef)]:
+            bound = {}
+            for n in ast.walk(fn):
+                if isinstance(n, ast.Assign) and len(n.targets) == 1 and isinstance(n.targets[0], ast.Name) and isinstance(n.value, ast.Call) and isinstance(n.value.func, ast.Attribute) \
+                        and n.value.func.attr in ("pop", "get") and n.value.args and common.const_str(n.value.args[0]) in falsy_keys:
+                    bound[n.targets[0].id] = (common.const_str(n.value.args[0]), n.lineno)
+            if not bound:
+                continue
+            n_reads += len(bound)
+            bad = []
+            for n in ast.walk(fn):
+                # `if NAME:` (alone or in a conjunction) whose body forwards NAME and whose else-branch does not: the value is used only when truthy
+                if not isinstance(n, ast.If):
+                    continue
+                conj = n.test.values if isinstance(n.test, ast.BoolOp) and isinstance(n.test.op, ast.And) else [n.test]
+                for t in conj:
+                    if isinstance(t, ast.Name) and t.id in bound:
+                        in_body = any(isinstance(x, ast.Name) and x.id == t.id and isinstance(x.ctx, ast.Load) for b in n.body for x in ast.walk(b))
+                        in_else = any(isinstance(x, ast.Name) and x.id == t.id and isinstance(x.ctx, ast.Load) for b in n.orelse for x in ast.walk(b))
+                        if in_body and not in_else:
+                            bad.append((t.id, bound[t.id][0], t.lineno))
+            for name, key, line in sorted(set(bad)):
+                R.ob("E11", "%s:%s:%s" % (m.relpath, fn.name, key), False, (m.relpath, line),
+                     "the reader drops the stored '%s' when it is falsy (`if %s:` after pop/get): a saved %s=False / 0 comes back as the constructor default" % (key, name, key))
+            if not bad:
+                R.ob("E11", "%s:%s" % (m.relpath, fn.name), True, (m.relpath, fn.lineno), "")
+    if n_reads < 2:
+        raise AnalysisError("E11: reads of flag / number keys in the readers not found (%d)" % n_reads)
+
     # ---------------------------------------------------------------- E8
     src = common.src_of(fr.node)
     R.ob("E8", "FitYamlReader:param model", "_fit_object._param_model = _read_parametric_model" not in src or ("_on_error_change_callback = _fit_object._on_error_change" in src and "_fit_object._on_error_change()" in src),
          (fr.file, fr.lineno), "the reader replaces the fit's parametric model without wiring it to the fit's error-change callback / invalidating the error nodes")
     R.ob("E8", "FitYamlReader:constraints", "_fit_object._fit_param_constraints = [" not in src or "_fit_object._on_constraint_change()" in src, (fr.file, fr.lineno),
          "the reader replaces the fit's constraint list without invalidating the constraint node")
+
+
+def _classes(p):
+    out = []
+    for m in p.modules.values():
+        out.extend(m.classes.values())
+    return out
